@@ -166,6 +166,14 @@ def run(ctx, res):
                    "the operands are exchanged so that both orders reach the same `%s` with operand types %s" % (
                        txt(computed[(ta, tb)].value)[:40], sg[1]))
             continue
+        if both and computed[(ta, tb)].value is not None and computed[(tb, ta)].value is not None \
+                and sum(1 for k_, _r in computed_all if k_ == (ta, tb)) == 1 and sum(1 for k_, _r in computed_all if k_ == (tb, ta)) == 1:
+            from ..astutil import exchanged, expand_locals
+            pa, pb = fi.params[:2]
+            if txt(expand_locals(fi.node, computed[(ta, tb)].value, fi.params)) == exchanged(fi.node, computed[(tb, ta)].value, pa, pb, fi.params):
+                res.ob("R10.1", fi.where(computed[(tb, ta)]), "{%s, %s}" % (ta, tb), True,
+                       "the (%s, %s) branch evaluates the expression of the (%s, %s) branch with the operands exchanged" % (tb, ta, ta, tb))
+                continue
         res.ob("R10.1", fi.where(), "{%s, %s}" % (ta, tb), not both, "one order forwards to the other")
         if both:
             res.violation("R10.1", fi, computed[(tb, ta)],
